@@ -45,6 +45,7 @@ class Cfg(t.NamedTuple):
     namelen: int
     named: bool
     sec: str
+    sig: int = 16
 
 
 BASE = Cfg("unprotect", "sync", "SHA256", "seed", (3, 5), (10, 12), 4, 11, True, "scripted")
@@ -62,14 +63,14 @@ def run_cfg(seed: int, c: Cfg):
     dom = "d" * c.namelen
     d = seams.Drbg(("C17blob", seed, c.pos, c.nsub, c.namelen))
     now = (L0, c.now[0], c.now[1])
-    dc = refdc.DC([rk], now=now if c.op == "protect" else (L0, 31, 31), authorised=c.kind == "seed", domain=dom, forest=dom, sec=c.sec)
+    dc = refdc.DC([rk], now=now if c.op == "protect" else (L0, 31, 31), authorised=c.kind == "seed", domain=dom, forest=dom, sec=c.sec, sig_size=c.sig)
     blob = cms.ref_encrypt(rk, sid, PT, (L0, c.pos[0], c.pos[1]), cek=d.bytes(32), gcm_nonce_=d.bytes(12), key_nonce=d.bytes(32), domain=dom, forest=dom)
     user, pw = (secctx.NTLM_USER, secctx.NTLM_PASS) if c.sec == "ntlm" else ("u", "p")
     kw = dict(server="dc.verif.test", username=user, password=pw, auth_protocol="ntlm")
     ent = seams.Entropy(b"C17")
     import contextlib
 
-    cm = secctx.scripted_client(lambda u, p, **k: secctx.ScriptedContext([b"C1"], 16)) if c.sec == "scripted" else contextlib.nullcontext()
+    cm = secctx.scripted_client(lambda u, p, **k: secctx.ScriptedContext([b"C1"], c.sig)) if c.sec == "scripted" else contextlib.nullcontext()
     with transport.network(dc) as hub, cm, seams.entropy(ent) if c.sec == "scripted" else contextlib.nullcontext():
         try:
             if c.op == "unprotect":
@@ -192,13 +193,16 @@ def configs(tier: str) -> t.List[Cfg]:
         for op in ("unprotect", "protect"):
             cs.append(BASE._replace(namelen=nl, op=op))
             cs.append(BASE._replace(namelen=nl, op=op, sec="ntlm"))
+    for sg in (76, 16, 28, 60, 16):
+        cs.append(BASE._replace(sig=sg))
+        cs.append(BASE._replace(sig=sg, op="protect", kind="DH"))
     cs.append(BASE._replace(op="protect", named=False))
     cs.append(BASE._replace(op="protect", named=False, kind="DH"))
     if tier == "thorough":
         i = 0
         for pos, h, k, op in itertools.product(itertools.product(POSV, POSV), HASHES, KINDS, ("unprotect", "protect")):
             i += 1
-            cs.append(Cfg(op, "sync", h, k, pos, pos, 1 + i % 15, i % 9, bool(i % 2), "scripted" if i % 3 else "ntlm"))
+            cs.append(Cfg(op, "sync", h, k, pos, pos, 1 + i % 15, i % 9, bool(i % 2), "scripted" if i % 3 else "ntlm", [16, 76, 28, 60][i % 4]))
     seen = set()
     out = []
     for c in cs:
@@ -257,7 +261,11 @@ def replay(case, seed, acc) -> None:
     seams.block_network()
     secctx.ntlm_setup()
     v = case[1]
-    c = Cfg(v[0], v[1], v[2], v[3], tuple(v[4]), tuple(v[5]), v[6], v[7], v[8], v[9])
+    c = Cfg(v[0], v[1], v[2], v[3], tuple(v[4]), tuple(v[5]), v[6], v[7], v[8], v[9], v[10] if len(v) > 10 else 16)
+    if c.sec == "scripted":
+        judge(acc, seed, c._replace(sig=76 if c.sig != 76 else 16))  # a connection with another signature size first (cross-connection state)
+        acc.violations.clear()
+        acc.violation_count = 0
     judge(acc, seed, c)
 
 
